@@ -599,6 +599,63 @@ func genDenote(r *hx.Rand) {
 	denoteCase(conn, terms)
 }
 
+// fixedCase: bare words in a fixed value list (and as its key); '/' is not special in projections.
+func fixedCase(key string, vals []string) {
+	text := key + "@(" + strings.Join(vals, " ") + ")"
+	other := strings.Join(vals, "") + "~"
+	if mine() {
+		cid := id - 1
+		_, _, sp := oracle(text)
+		hx.Printf("case %d kind=fixed key=%s vals=%s other=%s sp=%s tag=fixed\n", cid, hx.HexS(key), hx.HexListS(vals), hx.HexS(other), sp)
+		guarded(cid, func(out *strings.Builder) {
+			star, _ := benchproc.NewFilter("*")
+			var pp benchproc.ProjectionParser
+			p, err := pp.Parse(text, star)
+			if err != nil || len(p.Fields()) != 1 {
+				fmt.Fprintf(out, "sobs %d fx=err\n", cid)
+				return
+			}
+			bits := ""
+			for _, v := range vals {
+				bits += matchAll(star, mkRes("X", key, v))
+			}
+			got := p.Project(mkRes("X", key, vals[0])).Get(p.Fields()[0])
+			fmt.Fprintf(out, "sobs %d fx=ok:%s:%s:%s\n", cid, bits, matchAll(star, mkRes("X", key, other)), hx.HexS(got))
+		})
+	}
+	exprCase(text, "fixed")
+}
+
+var fixedAlphabet = []byte("ab0/._-*=/\xc3\xa9/")
+
+func genFixed(r *hx.Rand) {
+	word := func(lead bool) string {
+		l := 1 + r.Intn(5)
+		b := make([]byte, l)
+		for j := range b {
+			if r.Chance(1, 15) {
+				b[j] = hx.Pick(r, alphabet)
+			} else {
+				b[j] = hx.Pick(r, fixedAlphabet)
+			}
+		}
+		if lead && r.Chance(1, 2) {
+			b[0] = '/'
+		}
+		return string(b)
+	}
+	key := hx.Pick(r, []string{"a", "dir", "a/b", "k.x", "goos"})
+	if r.Chance(1, 3) {
+		key = "k" + word(false)
+	}
+	n := 1 + r.Intn(3)
+	var vals []string
+	for i := 0; i < n; i++ {
+		vals = append(vals, word(true))
+	}
+	fixedCase(key, vals)
+}
+
 func unqCase(text string) {
 	if !mine() {
 		return
@@ -746,6 +803,14 @@ func main() {
 			case "bare":
 				t, _ := hx.Field(l, "w")
 				bareCase(string(hx.UnHex(t)))
+			case "fixed":
+				k, _ := hx.Field(l, "key")
+				v, _ := hx.Field(l, "vals")
+				var vals []string
+				for _, b := range hx.UnHexList(v) {
+					vals = append(vals, string(b))
+				}
+				fixedCase(string(hx.UnHex(k)), vals)
 			case "denote":
 				t, _ := hx.Field(l, "text")
 				exprCase(string(hx.UnHex(t)), "replay")
@@ -792,6 +857,14 @@ func main() {
 	}
 	for i, n := 0, hx.N(1500, 30000); i < n; i++ {
 		genDenote(r)
+	}
+
+	// 0c. bare words (with '/') in fixed value lists
+	for _, c := range [][]string{{"dir", "/tmp", "/var/tmp"}, {"a", "/x/", "y"}, {"a", "x", "/y"}, {"a", "/"}, {"a/b", "//", "/a/"}, {"k", "x/y", "*a"}} {
+		fixedCase(c[0], c[1:])
+	}
+	for i, n := 0, hx.N(1500, 30000); i < n; i++ {
+		genFixed(r)
 	}
 
 	// 1. exhaustive over the special alphabet
